@@ -93,7 +93,8 @@ func histOracle(c *C, keyPrefix string) func(c2 *C, outs []*BOutcome, err error)
 				exp := ModelSession(m, s.Ops)
 				bad, msg, compared, unspec := CompareSession(exp, res)
 				c.Count("transitions")
-				c.Count("evaluations_override")
+				c.Count("evaluations_extra")
+				c.Distinct("nontrivial", fmt.Sprintf("%s#%d", bc.ID, si))
 				c.Add("ops_compared", int64(compared))
 				if last := res[len(res)-1]; last.V != nil && last.V["t"] == "state" {
 					c.Distinct("states", bc.ID+"|"+NewCanon().Render(last.V))
